@@ -210,7 +210,10 @@ def run_step(step, ctx, want_digests=False, count=True, want_tables=False):
             if isinstance(e, (KeyboardInterrupt, SystemExit)):
                 raise
             ev["outcome"] = "exc:" + type(e).__name__
-            ev["exc_msg"] = str(e)[:160]
+            try:
+                ev["exc_msg"] = str(e)[:160]
+            except BaseException:  # noqa: BLE001 - some fontTools errors fail in __str__
+                ev["exc_msg"] = "<unprintable %s>" % type(e).__name__
             if op == "gen_next":
                 ctx.gens.pop(step.get("gen", "g"), None)
         io_ops = world.simfs.disarm() if world.simfs is not None else 0
